@@ -564,5 +564,16 @@ func (r *Resolver) resolveOneNoCache(ctx context.Context, name, typ string) ([]a
 			continue
 		}
 	}
+	// A negative answer comes with the SOA record of the zone in the
+	// authority section, which says how long it may be kept. RFC 2308
+	// Section 5
+	if len(result.Answer) == 0 {
+		for _, a := range result.Authority {
+			ttl = min(ttl, a.TTL)
+			if soa, ok := a.Data.(dns.SOA); ok {
+				ttl = min(ttl, soa.Minimum)
+			}
+		}
+	}
 	return res, ttl, nil
 }
